@@ -474,7 +474,8 @@ Section Obj4.
     else objects_phase re_match e v l s (GMap gm) gm a0 = Err.
   Proof.
     intros m j Hw Hnd Hs Hpre Hsgm Hu.
-    unfold spec_objects in Hs.
+    unfold spec_objects, ob_ev_props, ob_ev_pats, ob_ev_add, ob_ev_names, ob_ev_deps in Hs.
+    unfold ob_additional, ob_p_props, ob_p_pats, ob_deps, ob_deps_name in Hs.
     set (props := olist (s_properties s)) in *.
     set (pats := olist (s_patternProperties s)) in *.
     set (p_props := filter _ (keys m)) in Hs.
